@@ -624,6 +624,25 @@ type peekedConn struct {
 // be read again.
 func (c *peekedConn) Read(buf []byte) (int, error) { return c.r.Read(buf) }
 
+// ReadFrom keeps the underlying connection's io.ReaderFrom behavior visible, so
+// that a bufio.Writer in front of a peekedConn passes copies straight through
+// instead of holding small writes back in its buffer.
+func (c *peekedConn) ReadFrom(r io.Reader) (int64, error) {
+	if rf, ok := c.Conn.(io.ReaderFrom); ok {
+		return rf.ReadFrom(r)
+	}
+	return io.Copy(struct{ io.Writer }{c.Conn}, r)
+}
+
+// CloseWrite shuts down the writing side of the underlying connection if it
+// supports that, and closes it otherwise.
+func (c *peekedConn) CloseWrite() error {
+	if cw, ok := c.Conn.(interface{ CloseWrite() error }); ok {
+		return cw.CloseWrite()
+	}
+	return c.Conn.Close()
+}
+
 func (p *Proxy) roundTrip(ctx *Context, req *http.Request) (*http.Response, error) {
 	if ctx.SkippingRoundTrip() {
 		log.Debugf("martian: skipping round trip")
@@ -650,6 +669,14 @@ func (p *Proxy) connect(req *http.Request) (*http.Response, net.Conn, error) {
 		res, err := http.ReadResponse(pbr, req)
 		if err != nil {
 			return nil, nil, err
+		}
+
+		// What follows a successful CONNECT response is the tunnel's payload, not
+		// a response body: hand it (including bytes already buffered in pbr) to
+		// the tunnel instead of streaming it as part of the response.
+		if res.StatusCode/100 == 2 {
+			res.Body = http.NoBody
+			return res, &peekedConn{conn, pbr}, nil
 		}
 
 		return res, conn, nil
